@@ -30,6 +30,7 @@ import dawgie  # noqa: E402
 import dawgie.context  # noqa: E402
 import dawgie.db  # noqa: E402
 import dawgie.fe.api  # noqa: E402
+import dawgie.fe.api.submit  # noqa: E402
 import dawgie.fe.submit  # noqa: E402
 import dawgie.pl.dag  # noqa: E402
 import dawgie.pl.farm as farm  # noqa: E402
@@ -428,7 +429,9 @@ def run_job(job):
                         ok = False
                     else:
                         req = Request()
-                        proc = dawgie.fe.submit.Process('changeset-x', lambda: None, req, PVAL[e['p']])
+                        # the legacy /app/submit flow and the /api one have their own Process classes: alternate
+                        impl = dawgie.fe.api.submit if int(job['id']) % 2 else dawgie.fe.submit
+                        proc = impl.Process('changeset-x', lambda: None, req, PVAL[e['p']])
                         r = proc.step_1(None)
                         if isinstance(r, twisted.python.failure.Failure):
                             o['refused'] = True
